@@ -59,6 +59,13 @@ type Frame struct {
 	deferred []string
 	letVals  map[string]Val
 	rangeVisited []rangeVis
+	defers   []deferRec
+}
+
+type deferRec struct {
+	in     *ssa.Defer
+	cond   string
+	inLoop bool
 }
 
 type rangeVis struct {
